@@ -41,7 +41,19 @@ class RateLimitS1(Segment):
                    note='an element arriving after the line has been idle for the interval is delivered without delay'),
             Clause('C04.holds_while_sleeping', ['C04'], when='yield:1', text='delta >= occ(metadata)',
                    kind='text', note='H1: the element waits inside the node after update() returned to the emitter, so the node must hold it'),
+            Clause('C13.the_slot_is_reserved_when_update_is_called', ['C13', 'C02'], when='any', fn=self.first_segment_is_eager(),
+                   note='arrival order is the order of the calls of update(): the first segment (reading the clock, reserving the slot, '
+                        'retaining) must run inside the call.  A Tornado coroutine does; the body of a native coroutine (async def) does '
+                        'not run at all until somebody awaits the returned object, and emitters that do not await (collect.flush, the '
+                        'from_tcp handler) would drop the element'),
         ] + self.segment_clauses()
+
+    def first_segment_is_eager(self):
+        def fn(self_, I, o, fr):
+            import ast as _ast
+            rel, node = I.index.function('rate_limit.update')
+            return z3.BoolVal(not isinstance(node, _ast.AsyncFunctionDef))
+        return fn
 
 
 class RateLimitS2(Segment):
